@@ -160,6 +160,6 @@ NOT_APPLICABLE = {
     #'C12': 'not yet under contract in this revision (unit quoting planned)',
     #'C16': 'not yet under contract in this revision (unit location planned)',
     #'C17': 'not yet under contract in this revision (unit snippet planned)',
-    'C19': 'not yet under contract in this revision (unit robotics planned)',
+    'C19': 'unit robotics was not built in the time available; only totality was in reach anyway (float arithmetic is uninterpreted in Verus, dec2flt defeats CBMC), see DESIGN.md section 0',
     #'C20': 'not yet under contract in this revision (unit quoting planned)',
 }
